@@ -269,7 +269,7 @@ pub fn o_model(input: &[u8], p: &P) -> Out {
 				transposed_equal(&t, &t2).map_err(|m| ("frame-accessor".to_string(), format!("Game::frame({}) differs from transpose_one: {}", i, m)))?;
 			}
 		}
-		if aspects & A_VIA_SLPP != 0 && !g.frames.ports.is_empty() {
+		if aspects & A_VIA_SLPP != 0 {
 			// the finished representation as loaded from an archive: same rows, and rows == its own columns
 			let g1 = read_slp(input, false, false).map_err(|f| ("reread-failed".to_string(), f.describe()))?;
 			let arch = write_slpp(g1, (xx(input) % 3) as u8).map_err(|f| (format!("slpp-write-failed:{}", f.key()), f.describe()))?;
